@@ -32,6 +32,8 @@ CHECKS = {
          "quick 2.5e5 / thorough 1.25e6 candidates, each through addRecord and setRecord (and isAvailable/register/registerTLD for names) on the real bytecode from one base state; accepted <=> the independent reference accepts; a rejection must leave an empty storage diff", "4.18"),
  "C17": ("chainmc", "explicit-state BFS over vote/stranger/advance-blocks sequences on the NeoFS contract deployed without Notary, one exploration per Alphabet size, against a ballot model (voter set + height of the last counted vote)",
          "n=1..4 (quick) / 1..7 (thorough): all sequences up to threshold+2 / threshold+3 invocations of setConfig (two competing ids), cheque, alphabetUpdate and innerRingCandidateRemove by every member, a stranger and the candidate, with block gaps 1/19/20/21 and several votes per block; for n>=3 new voters are introduced in index order (the contract only compares keys for equality), n=3 additionally in every order in the thorough tier; the effect (config value, GAS at payee and contract, Alphabet list, candidate list, exactly one notification) must happen in exactly the invocation that completes floor(2n/3)+1 distinct votes", "4.17"),
+ "C05": ("chainmc", "exhaustive grid over fee settings x Alphabet sizes {1,4,7} x owner-balance boundaries x naming modes x short histories, exact balance-delta oracle",
+         "1134 cases: ContainerFee {0,1,7} x ContainerAliasFee {0,3} x {unnamed, new name, name reused after delete, domain registered in advance} x balance {T-1,T,T+1,2T-1,2T} x history {put; put,put; put,setConfig(fee'),put} plus Alphabet-node-as-owner rows; exact debit of the owner, exact credit of every Alphabet node account, N TransferX notifications with container-fee details, container stored; below the threshold the call must fault with an empty diff of all contracts", "4.5"),
 }
 
 NOT_YET = "check not built yet in this revision (work in progress; see DESIGN.md section 10)"
